@@ -38,6 +38,7 @@ func genC11(g *simrt.Tape, tier string) any {
 					genCtx(g, &call)
 				}
 				call.Via = genVia(g)
+				call.Bytes = g.Draw(4) == 0
 			}
 			cs.Calls = append(cs.Calls, call)
 		}
